@@ -5504,7 +5504,9 @@ class PyCdlib:
             # rm_file() to remove the ISO9660 record, and rm_hard_link() to
             # remove the UDF record.
 
-        if joliet_path is not None:
+        if joliet_path is not None and not (udf_symlink_path is not None and rr_path is None):
+            # A UDF-only symlink already added its Joliet entry along with
+            # the zero-byte ISO9660 file above.
             if self.joliet_vd is None:
                 raise pycdlibexception.PyCdlibInternalError('Tried to add a Joliet path to a non-Joliet ISO')
             joliet_path_bytes = self._normalize_joliet_path(joliet_path)
